@@ -16,6 +16,7 @@ import io
 import json
 import os
 import random
+import re
 import sys
 import traceback
 
@@ -211,6 +212,166 @@ def list_ws_job(job):
     return dict(info, cases=cases)
 
 
+# ------------------------------------------------------------------ declarations carried by WRAPPER elements
+# A field with metadata wrapper=... has an intermediate element that no class describes (WrapperNode).  Its own
+# namespace declarations are in scope for the wrapped items: QName-typed items, QName attributes / QName enums of wrapped
+# objects, xsi:type values of wrapped generic items, and wrappers nested in wrapped objects.
+WRAP_SRC = '''
+class WQE(Enum):
+    OA = QName("{urn:outer}a")
+    IA = QName("{urn:inner}a")
+    XA = QName("{urn:x}a")
+
+@dataclass
+class Item:
+    class Meta:
+        name = "item"
+    kind: Optional[QName] = field(default=None, metadata={"type": "Attribute"})
+    en: Optional[WQE] = field(default=None, metadata={"type": "Attribute"})
+    ref: list[QName] = field(default_factory=list, metadata={"type": "Element"})
+    names: list[QName] = field(default_factory=list, metadata={"type": "Element", "name": "name", "wrapper": "names"})
+    parts: list["Item"] = field(default_factory=list, metadata={"type": "Element", "name": "part", "wrapper": "parts"})
+
+@dataclass
+class Box:
+    class Meta:
+        name = "box"
+    title: Optional[str] = field(default=None, metadata={"type": "Element"})
+    types: list[QName] = field(default_factory=list, metadata={"type": "Element", "name": "type", "wrapper": "types"})
+    items: list[Item] = field(default_factory=list, metadata={"type": "Element", "name": "item", "wrapper": "items"})
+    xs: list[object] = field(default_factory=list, metadata={"type": "Element", "name": "x", "wrapper": "xs"})
+    primary: Optional[QName] = field(default=None, metadata={"type": "Element"})
+'''
+WRAP_URIS = ["urn:outer", "urn:inner", "urn:x", R.XS_NS]
+
+
+def wrap_semantic(r):
+    """semantic tree: node = {tag, decls [[prefix, uri]], qattrs [[name, value]], qtext value|None, text, kids, wrapper};
+    a QName value is [prefix key | None, local] and means whatever the key is bound to at its element"""
+    names = ["p", "q", "k", "t"]
+
+    def declare(scope, prob):
+        ds, sc = [], dict(scope)
+        if r.random() < prob:
+            for _ in range(r.choice([1, 1, 2])):
+                k = r.choice(names)
+                if k in [d[0] for d in ds]:
+                    continue
+                u = r.choice([x for x in WRAP_URIS if x != sc.get(k)])
+                ds.append([k, u])
+                sc[k] = u
+        return ds, sc
+
+    def value(sc, prefer, uris=None, local=None):
+        keys = [k for k in sc if uris is None or sc[k] in uris]
+        pk = [k for k in prefer if k in keys]
+        if pk and r.random() < 0.8:
+            keys = pk                                   # mostly the nearest (the wrapper's own) declarations
+        if not keys:
+            return None if uris else [None, local or "a"]
+        return [r.choice(keys), local or r.choice(["a", "b", "c.d", "e-f"])]
+
+    def node(tag, ds, **kw):
+        return dict({"tag": tag, "decls": ds, "qattrs": [], "qtext": None, "text": None, "kids": [], "wrapper": False}, **kw)
+
+    def leaf(tag, scope, prefer):
+        ds, sc = declare(scope, 0.15)
+        return node(tag, ds, qtext=value(sc, [d[0] for d in ds] or prefer))
+
+    def wrapper(tag, scope, make, counts):
+        ds, sc = declare(scope, 0.8)
+        prefer = [d[0] for d in ds]
+        return node(tag, ds, wrapper=True, kids=[make(sc, prefer) for _ in range(r.choice(counts))])
+
+    def item(tag, scope, prefer, depth):
+        ds, sc = declare(scope, 0.25)
+        prefer = [d[0] for d in ds] or prefer
+        qa = []
+        if r.random() < 0.7:
+            qa.append(["kind", value(sc, prefer)])
+        en = value(sc, prefer, ("urn:outer", "urn:inner", "urn:x"), "a") if r.random() < 0.6 else None
+        if en:
+            qa.append(["en", en])
+        kids = [leaf("ref", sc, prefer) for _ in range(r.choice([0, 1, 2]))]
+        if r.random() < 0.5:
+            kids.append(wrapper("names", sc, lambda s, p: leaf("name", s, p), [0, 1, 2, 3]))
+        if depth < 2 and r.random() < 0.45:
+            kids.append(wrapper("parts", sc, lambda s, p: item("part", s, p, depth + 1), [1, 2]))
+        return node(tag, ds, qattrs=qa, kids=kids)
+
+    def anyx(scope, prefer):
+        ds, sc = declare(scope, 0.15)
+        ty, val = r.choice([["int", "17"], ["boolean", "1"], ["string", "s 1"], ["int", "0"], ["decimal", "1.50"]])
+        v = value(sc, [d[0] for d in ds] or prefer, (R.XS_NS,), ty)
+        if v is None:
+            ds.append(["t", R.XS_NS])
+            v = ["t", ty]
+        return node("x", ds, qattrs=[[R.XSI_TYPE_Q, v]], text=val)
+
+    ds, sc = declare({}, 0.5)
+    kids = []
+    if r.random() < 0.5:
+        kids.append(node("title", [], text="demo"))
+    if r.random() < 0.8:
+        kids.append(wrapper("types", sc, lambda s, p: leaf("type", s, p), [0, 1, 2, 3]))
+    if r.random() < 0.8:
+        kids.append(wrapper("items", sc, lambda s, p: item("item", s, p, 0), [1, 2, 3]))
+    if r.random() < 0.6:
+        kids.append(wrapper("xs", sc, anyx, [1, 2]))
+    if r.random() < 0.7:
+        kids.append(leaf("primary", sc, []))
+    return node("box", ds, kids=kids)
+
+
+def wrap_struct(sem, rename=False, on_items=False):
+    """spell the semantic tree.  rename: every declared prefix gets a fresh name (declaration and uses together);
+    on_items: the declarations of a wrapper element are written on each of its children instead (the wrapper element
+    itself has no QName content, so the in-scope bindings of every value are the same)"""
+    counter = [0]
+
+    def go(n, env, pushed):
+        own = [d[0] for d in n["decls"]]
+        ds = [d for d in pushed if d[0] not in own] + n["decls"]
+        push = []
+        if on_items and n["wrapper"] and n["kids"]:
+            push, ds = ds, []
+        env = dict(env)
+        out = []
+        for k, u in ds:
+            if rename:
+                counter[0] += 1
+                env[k] = "n%d" % counter[0]
+            else:
+                env[k] = k
+            out.append([env[k], u])
+
+        def sp(v):
+            return v[1] if v[0] is None else env[v[0]] + ":" + v[1]
+        return {"tag": n["tag"], "decls": out, "attrs": [[a, sp(v)] for a, v in n["qattrs"]],
+                "text": sp(n["qtext"]) if n["qtext"] else n["text"], "kids": [go(k, env, push) for k in n["kids"]], "tail": None}
+    return go(sem, {}, [])
+
+
+def wrapped_qname_job(job):
+    model = IP.Model(IP.full_source(WRAP_SRC), "Box")
+    info = {"id": job["id"], "seed": job["seed"], "model": job["model"], "source": model.src,
+            "universe": model.ex.universe_term(), "nodefault": model.nodefault_term(), "root": cN(model.ex.cid[model.root])}
+    r = random.Random(job["seed"])
+    cases = []
+    for k in range(job.get("n", 12)):
+        sem = wrap_semantic(r)
+        d0 = R.print_doc(r, wrap_struct(sem)).encode()
+        variants = [("renamed", R.print_doc(r, wrap_struct(sem, rename=True)).encode()),
+                    ("on-items", R.print_doc(r, wrap_struct(sem, on_items=True)).encode())]
+        cfg = (True, False, k % 3 == 2)                 # every third document with fail_on_converter_warnings
+        for what, d1 in variants:
+            cases.append(pair(model, info, cfg, "wrapper_decl", d0, d1, what=what))
+            cases.append(pair(model, info, cfg, "wrapper_decl", d0, d1, what=what + " lxml", handler=LxmlEventHandler))
+    info["conv"] = model.ex.rec.table_term()
+    model.close()
+    return dict(info, cases=cases)
+
+
 def xinclude_job(job):
     """splitting the document with XInclude: child elements moved into files of their own and included by href (the
     same file included several times when the children are equal); both handlers, equal to the unsplit document"""
@@ -233,6 +394,19 @@ class W:
             def sub():
                 return '<T a="%s">%s</T>' % (r.choice(["1", "v", "same"]), "".join("<t>%s</t>" % r.choice(["x", "y z", "\u00e9"])
                                                                                      for _ in range(r.choice([1, 2, 3]))))
+
+            def nz(p=0.5):
+                return r.choice(["<!-- c -->", "<?pi d?>", "<!--x--><?p q?>", "<!---->"]) if r.random() < p else ""
+
+            def annotate(i):
+                """the same subtree with comments / processing instructions (no infoset content for the binding) before,
+                inside and after the character data of its simple-content children and between the children"""
+                def one(m):
+                    t = m.group(1)
+                    c = r.randrange(len(t) + 1)
+                    return "<t>" + nz() + t[:c] + nz() + t[c:] + nz(0.3) + "</t>" + nz(0.3)
+                head, _, rest = i.partition(">")
+                return head + ">" + nz(0.3) + re.sub(r"<t>([^<]*)</t>", one, rest)
             pool = [sub() for _ in range(r.choice([1, 2, 3]))]
             items = [r.choice(pool) for _ in range(r.choice([2, 3, 4, 5]))]
             if k == 0:
@@ -242,15 +416,21 @@ class W:
             os.mkdir(d)
             files = {}
             body = []
+            noisy = k % 2 == 1            # every other document: comments / PIs in the included files and in the main file
+            annotated = 0
             for i in items:
                 if r.random() < 0.8 or k == 0:
                     if i not in files:
                         files[i] = "inc%d.xml" % len(files)
+                        content = annotate(i) if noisy else i
+                        annotated += content != i
                         with open(os.path.join(d, files[i]), "w", encoding="utf-8") as f:
-                            f.write("<?xml version='1.0' encoding='UTF-8'?>" + i)
+                            f.write("<?xml version='1.0' encoding='UTF-8'?>" + (nz(0.3) if noisy else "") + content)
                     body.append('<xi:include href="%s"/>' % files[i])
                 else:
-                    body.append(i)
+                    body.append(annotate(i) if noisy else i)
+                if noisy:
+                    body.append(nz(0.3))
             doc = '<W xmlns:xi="http://www.w3.org/2001/XInclude" b="v">' + "".join(body) + "</W>"
             main = os.path.join(d, "main.xml")
             with open(main, "w", encoding="utf-8") as f:
@@ -265,7 +445,9 @@ class W:
                     except Exception as e:  # noqa
                         why = type(e).__name__ + ": " + str(e)[:150]
                     out.append({"handler": hname, "source": sname, "why": why, "doc": doc[:400], "expected": repr(ref)[:200],
-                                "repeated_href": len(files) < sum(1 for b in body if b.startswith("<xi"))})
+                                "repeated_href": len(files) < sum(1 for b in body if b.startswith("<xi")),
+                                "annotated_included": annotated, "included": [open(os.path.join(d, f), encoding="utf-8").read()[:300]
+                                                                              for f in files.values()] if why else None})
     finally:
         shutil.rmtree(tmpd, ignore_errors=True)
     model.close()
@@ -277,6 +459,8 @@ def run_job(job):
         return list_ws_job(job)
     if "xinclude" in job.get("model", {}):
         return xinclude_job(job)
+    if "wrapped_qname" in job.get("model", {}):
+        return wrapped_qname_job(job)
     if job.get("oracle"):
         try:
             return oracle_job(job)
